@@ -218,6 +218,12 @@ type c16Case struct {
 	reAB     *regexp2.Regexp // \A[class][twin]\z
 	reBA     *regexp2.Regexp // \A[twin][class]\z
 	adjProbe []rune
+
+	// the class as one branch of an alternation of single-rune branches, which the compiler merges
+	// into ONE set: behind two halves that together hold every rune but `hole` (the accumulated set
+	// flips to its negated form before the class is added), and in front of them
+	hole       rune
+	reU1, reU2 *regexp2.Regexp // \A(?:[\x00-h1]|[h2-\x{10FFFF}]|[class])\z , \A(?:[class]|\n|[\x00-h1]|[h2-\x{10FFFF}])\z
 }
 
 // twinOf derives the near-twin; nil when the class offers nothing to vary.
@@ -310,6 +316,18 @@ func buildC16(node *gen.Node, opts int) (*c16Case, error) {
 	if c.reA == nil || c.reL == nil || c.reP == nil || c.reN == nil {
 		return c, fmt.Errorf("a use of the class does not compile")
 	}
+	if !c.d.ECMA && !c.ic {
+		c.hole = 'm'
+		for _, it := range node.Items {
+			if (it.T == "r" || it.T == "range") && it.Lo > 1 && it.Lo < 0x10FFFE && !(it.Lo >= 0xD7FE && it.Lo <= 0xE001) {
+				c.hole = it.Lo + 1
+				break
+			}
+		}
+		halves := fmt.Sprintf(`[\x00-\x{%X}]|[\x{%X}-\x{10FFFF}]`, c.hole-1, c.hole+1)
+		c.reU1 = comp(`\A(?:`+halves+`|`+c.src+`)\z`, 0)
+		c.reU2 = comp(`\A(?:`+c.src+`|\n|`+halves+`)\z`, 0)
+	}
 	if !c.d.ECMA {
 		if t, probe := twinOf(node); t != nil {
 			gen.Annotate(t, envOf(opts))
@@ -364,6 +382,18 @@ func (c *c16Case) check(r rune, paths func(string)) string {
 		}
 		if got != want {
 			return bad("MatchRunes of "+p.name, got)
+		}
+	}
+	for ui, re := range []*regexp2.Regexp{c.reU1, c.reU2} {
+		if re == nil {
+			continue
+		}
+		for _, x := range []rune{r, c.hole} {
+			wantU := x != c.hole || ref.ClassMatch(c.node, x, c.ic, c.d) || (ui == 1 && x == '\n')
+			paths("match:alternation-merged-into-one-set")
+			if got, err := re.MatchRunes([]rune{x}); err == nil && got != wantU {
+				return fmt.Sprintf("MatchRunes of %s on U+%04X says %v; the branches are every rune but U+%04X, and the class (set algebra says %v for it)", re.String(), x, got, c.hole, ref.ClassMatch(c.node, x, c.ic, c.d))
+			}
 		}
 	}
 	if c.node2 != nil {
